@@ -70,6 +70,14 @@ def _cls(name):
     return _OBJ_CLASSES[name]
 
 
+class ArgBuild(Exception):
+    """an argument object could not be built: the constructor `name` raised `exc` on (mutated) arguments"""
+
+    def __init__(self, name, exc):
+        super().__init__(f"{name}: {type(exc).__name__}: {exc}")
+        self.name, self.exc = name, exc
+
+
 def materialize(s):
     if isinstance(s, dict):
         if "b" in s:
@@ -101,9 +109,12 @@ def materialize(s):
             name, hx = s["obj"]
             c = _cls(name)
             try:
-                return c.parse(bytes.fromhex(hx), check_validity=False)
-            except TypeError:
-                return c.parse(bytes.fromhex(hx))
+                try:
+                    return c.parse(bytes.fromhex(hx), check_validity=False)
+                except TypeError:
+                    return c.parse(bytes.fromhex(hx))
+            except Exception as e:  # noqa: BLE001
+                raise ArgBuild(name + ".parse", e) from e
         if "dec" in s:
             return Decimal(s["dec"])
         if "flag" in s:
@@ -111,9 +122,22 @@ def materialize(s):
             return ScriptFlag(s["flag"])
         if "call" in s:                     # an object built by calling a btclib constructor / function
             name, cargs, ckw = s["call"]
-            mod, _, attr = name.rpartition(".")
-            f = getattr(importlib.import_module(mod), attr)
-            return f(*[materialize(x) for x in cargs], **{k: materialize(v) for k, v in ckw.items()})
+            parts = name.split(".")
+            f = None
+            for i in range(len(parts), 0, -1):
+                try:
+                    f = importlib.import_module(".".join(parts[:i]))
+                except ImportError:
+                    continue
+                for a in parts[i:]:
+                    f = getattr(f, a)
+                break
+            ca = [materialize(x) for x in cargs]
+            ck = {k: materialize(v) for k, v in ckw.items()}
+            try:
+                return f(*ca, **ck)
+            except Exception as e:  # noqa: BLE001 - the constructor's own answer to hostile arguments
+                raise ArgBuild(name, e) from e
         raise ValueError(f"bad spec {list(s)[:3]}")
     return s
 
